@@ -13,7 +13,7 @@ func init() { vrt.Register("VerifC16_DefaultValue", VerifC16_DefaultValue) }
 // double, string, bool) holds exactly the declared value in its three forms: Go value, JSON text and Thrift
 // binary - these are what the converters write for an absent field under the write options.
 func VerifC16_DefaultValue() {
-	kind := vrt.Param("KIND") // 0 byte, 1 i16, 2 i32, 3 i64, 4 double, 5 string, 6 bool
+	kind := vrt.Param("KIND") // 0 byte, 1 i16, 2 i32, 3 i64, 4 double, 5 string, 6 bool, 7 identifier (SRC)
 	vrt.GhostReset()
 	switch kind {
 	case 0, 1, 2, 3:
@@ -90,5 +90,37 @@ func VerifC16_DefaultValue() {
 		vrt.Reach("made")
 		got := []byte(dv.ThriftBinary())
 		vrt.Assert(len(got) == 1 && (got[0] == 1) == b && dv.JSONValue() == id, "C16.default.bool.forms")
+	case 7:
+		// identifier defaults: constants and enum values of the file itself and of an included file; both
+		// files declare an enum Color and a constant K with different (symbolic) values
+		src := vrt.Param("SRC") // 0 K, 1 shared.K, 2 Color.GREEN, 3 shared.Color.GREEN, 4 Color.RED (first value)
+		lv, sv := int64(int32(vrt.U32())), int64(int32(vrt.U32()))
+		lc, sc := int64(int32(vrt.U32())), int64(int32(vrt.U32()))
+		mkTree := func(file string, ev, cv int64) *parser.Thrift {
+			c := cv
+			return &parser.Thrift{
+				Filename:  file,
+				Enums:     []*parser.Enum{{Name: "Other", Values: []*parser.EnumValue{{Name: "GREEN", Value: 77}}}, {Name: "Color", Values: []*parser.EnumValue{{Name: "RED", Value: ev + 1}, {Name: "GREEN", Value: ev}}}},
+				Constants: []*parser.Constant{{Name: "J", Value: &parser.ConstValue{Type: parser.ConstType_ConstInt, TypedValue: &parser.ConstTypedValue{Int: new(int64)}}}, {Name: "K", Value: &parser.ConstValue{Type: parser.ConstType_ConstInt, TypedValue: &parser.ConstTypedValue{Int: &c}}}},
+			}
+		}
+		shared := mkTree("shared.thrift", sv, sc)
+		main := mkTree("main.thrift", lv, lc)
+		main.Includes = []*parser.Include{{Path: "shared.thrift", Reference: shared}}
+		id := []string{"K", "shared.K", "Color.GREEN", "shared.Color.GREEN", "Color.RED"}[src]
+		want := []int64{lc, sc, lv, sv, lv + 1}[src]
+		dv, err := makeDefaultValue(VerifBasic(I64), &parser.ConstValue{Type: parser.ConstType_ConstIdentifier, TypedValue: &parser.ConstTypedValue{Identifier: &id}}, main)
+		vrt.Assert(err == nil && dv != nil, "C16.default.identifier.noerror")
+		if err != nil || dv == nil {
+			return
+		}
+		vrt.Reach("made")
+		g, ok := dv.GoValue().(int64)
+		vrt.Assert(ok && g == want, "C16.default.identifier.go-value")
+		j, okj := vrt.JNumInt([]byte(dv.JSONValue()))
+		vrt.Assert(okj && j == want, "C16.default.identifier.json-value")
+		got := []byte(dv.ThriftBinary())
+		wb := vrt.PutBE64(nil, want)
+		vrt.Assert(vrt.BytesEq(got, 0, len(got), wb, 0, len(wb)), "C16.default.identifier.thrift-binary")
 	}
 }
